@@ -1,6 +1,6 @@
-"""C04 - queue family check (see lib/queuefam.py)."""
-from lib import queuefam
+"""C04 - queue family check (see lib/queuefam.py) + the pull layer: idempotent duplicate answer, status mapping (lib/c04pull.py)."""
+from lib import c04pull, queuefam
 
 
 def main(ctx, replay):
-    return queuefam.run_property(ctx, "C04", 150, 3000)
+    return queuefam.run_property(ctx, "C04", 150, 3000, extra=c04pull.run, extra_prop_files=("C04pull",))
